@@ -727,7 +727,7 @@ def main(argv):
     log(f"[summary] {prop} tier={tier} evaluations={coverage['evaluations']} sequences={agg['sequences']} ops={agg['ops']} distinct_nontrivial={coverage['distinct_nontrivial']} "
         f"diffs={len(diffs)} monitor={len(monitor_viol)} known={len(known_hits)} crashes={len(crashes)} "
         f"obligations_discharged={ob['discharged']}/{ob['obligations']} wall={ev['wall_s']}s")
-    for line in violation_lines[:3]:
+    for line in list(dict.fromkeys(violation_lines))[:3]:
         print(line, flush=True)
     return 1 if violation_lines else 0
 
